@@ -203,13 +203,13 @@ void VGM_Writer::stop()
 //! Write a long to the vgm buffer
 void VGM_Writer::poke32(uint32_t offset, uint32_t data)
 {
-	*(uint32_t*)(buffer+offset) = data;
+	std::memcpy(buffer+offset, &data, sizeof(data));
 }
 
 //! Write a short to the vgm buffer
 void VGM_Writer::poke16(uint32_t offset, uint16_t data)
 {
-	*(uint16_t*)(buffer+offset) = data;
+	std::memcpy(buffer+offset, &data, sizeof(data));
 }
 
 //! Write a char to the vgm buffer
@@ -275,13 +275,17 @@ uint32_t VGM_Writer::get_loop_sample() const
 //! Return a long from the vgm buffer
 uint32_t VGM_Writer::peek32(uint32_t offset) const
 {
-	return *(uint32_t*)(buffer+offset);
+	uint32_t data;
+	std::memcpy(&data, buffer+offset, sizeof(data));
+	return data;
 }
 
 //! Return a short from the vgm buffer
 uint16_t VGM_Writer::peek16(uint32_t offset) const
 {
-	return *(uint16_t*)(buffer+offset);
+	uint16_t data;
+	std::memcpy(&data, buffer+offset, sizeof(data));
+	return data;
 }
 
 //! Return a char from the vgm buffer
@@ -377,7 +381,7 @@ void VGM_Writer::add_gd3(const char* s)
 		std::wstring_convert<std::codecvt_utf8_utf16<char16_t>, char16_t>{}.from_bytes(s);
 	const char16_t* source = u16_conv.data();
 	while(*source != 0 && max != 0) {
-		*(char16_t*)buffer_pos = *source;
+		std::memcpy(buffer_pos, source, sizeof(char16_t));
 		buffer_pos += 2;
 		source++;
 		max--;
